@@ -39,9 +39,13 @@ ASSUMPTIONS = ['for invalid-expression faults the offending substring is the exp
 
 BADS = ['bad7 +', '1 +', '(a', 'a b', 'x[', 'é +', 'lambda', 'a ++ ', "d['k'", 'not',
         # invalid expressions spanning lines: the token must still be the source substring
-        '(a\n   b', '1 +\n  2 +', 'a\n b']
+        '(a\n   b', '1 +\n  2 +', 'a\n b',
+        # ... whose brackets an added outer pair would balance, or that only parse inside brackets
+        'a) * (b +\n c', '1), (2,\n 3', 'n * n\n for n in (1, 2)', ']\n+ [']
 GOODS = ['1', "'s'", 'a', "';;'", "'&amp;'", "'&lt;b&gt;'", 'x or 1', "d['k']", "'é'", "a ;; b" if False else "'x;;y'", '(1, 2)',
-         "len('ab')"]
+         "len('ab')",
+         # valid expressions written over several lines (a line break inside a literal is a blank)
+         "'one\ntwo'", '(1,\n 2)', 'x or\n 1', "len('a\n\nb')"]
 
 
 class Case:
